@@ -1,11 +1,11 @@
 #!/usr/bin/env python3-vt
 # Native replay (no proxies, real unmodified yardl Python runtime from /repo) of a pysym counterexample.
-# property C01   obligation prim.read-no-exception[short-reads]
+# property C01   obligation bytes.read-no-exception[short-reads]
 # key py:BufferError@CodedInputStream._fill_buffer:short-read-schedule
 # BufferError raised: Existing exports of data: object cannot be re-sized
 # run:  python3-vt <this file>      exit 1 = failure reproduced, 0 = not reproduced
 import sys, json
 sys.path.insert(0, '/verif')
 from engine.pysym import env
-SPEC = json.loads('{"prop": "C01", "key": "py:BufferError@CodedInputStream._fill_buffer:short-read-schedule", "obligation": "prim.read-no-exception[short-reads]", "job": {"harness": "harness.py.kernels:h_prim_read", "params": {"kind": "fixed_int32", "N": 16, "mode": "short"}, "limits": {"budget_s": 240, "max_paths": 40000, "xcheck_every": 40}, "hooks": null}, "inputs": {"x": 0, "r.p": 1, "r.pre0": 0, "r.pre1": 0, "r.pre2": 0, "r.pre3": 0, "r.pre4": 0, "r.pre5": 0, "r.pre6": 0, "r.pre7": 0, "r.pre8": 0, "r.pre9": 0, "r.pre10": 0, "r.pre11": 0, "r.pre12": 0, "r.pre13": 0, "r.pre14": 0, "r.pre15": 0, "r.t": 0, "r.post0": 0, "r.post1": 0, "r.src.k0": 2}}')
+SPEC = json.loads('{"prop": "C01", "key": "py:BufferError@CodedInputStream._fill_buffer:short-read-schedule", "obligation": "bytes.read-no-exception[short-reads]", "job": {"harness": "harness.py.kernels:h_bytes", "params": {"N": 16, "mode": "short"}, "limits": {"budget_s": 25, "max_paths": 4000}, "hooks": null}, "inputs": {"w.off": 13, "w.junk0": 0, "w.junk1": 0, "w.junk2": 0, "w.junk3": 0, "w.junk4": 0, "w.junk5": 0, "w.junk6": 0, "w.junk7": 0, "w.junk8": 0, "w.junk9": 0, "w.junk10": 0, "w.junk11": 0, "w.junk12": 0, "w.junk13": 0, "w.junk14": 0, "w.junk15": 0, "r.p": 3, "r.pre0": 0, "r.pre1": 0, "r.pre2": 0, "r.pre3": 0, "r.pre4": 0, "r.pre5": 0, "r.pre6": 0, "r.pre7": 0, "r.pre8": 0, "r.pre9": 0, "r.pre10": 0, "r.pre11": 0, "r.pre12": 0, "r.pre13": 0, "r.pre14": 0, "r.pre15": 0, "r.t": 0, "r.post0": 0, "r.post1": 0, "r.src.k0": 8, "len": 2, "reader": 0}}')
 sys.exit(env.replay_main(SPEC))
